@@ -130,7 +130,7 @@ def gen_protocol(ch, cfg: dict) -> Proto:
     cfg = dict(cfg)
     cfg["ll1_alternatives"] = not ch.coin(cfg.get("ambiguous_states", 0.25), "spec", "ambiguous-states")
     p.fuzzers = ["Fz"] + (["Fy"] if ch.coin(cfg.get("two_fuzzers", 0.15), "spec", "fy") else [])
-    p.externals = ["Ex"] + (["Ey"] if ch.coin(cfg.get("two_externals", 0.3), "spec", "ey") else [])
+    p.externals = ["Ex"] + (["Ey"] if ch.coin(cfg.get("two_externals", 0.45), "spec", "ey") else [])
     if len(p.externals) == 2 and ch.coin(0.25, "spec", "ez"):
         p.externals.append("Ez")
     n_types = ch.rng_range(3, cfg.get("max_types", 7), "spec", "ntypes")
